@@ -10,7 +10,7 @@ from .. import flow
 from ..cfg import cfg_of
 from ..linexpr import Env, Konst, Lin, NONE, Seq, fresh, local_edges, loop_heads, paths_from, run_steps, segments
 from ..model import AnchorError, Class, Func, UnknownIdiom, dotted, short, unparse
-from .common import ancestors, enclosing_map, strip_await, walk_self
+from .common import ancestors, enclosing_map, implied, strip_await, walk_self
 
 WSGI = 'falcon.stream.BoundedStream'
 ASGI = 'falcon.asgi.stream.BoundedStream'
@@ -194,6 +194,13 @@ def asgi_loops(run, v: Verdicts, f, mode):
             v.note(f, 'loop-condition', 'the receive loop runs only while the budget is positive',
                    bool(envs) and all(e.prove_le(1, e.var(BUDGET)) for e in envs), header,
                    rw='a body whose last event has more_body=True after Content-Length bytes: the loop awaits receive() again and blocks')
+            _guard_boundary(v, f, lp, header)
+        live = Env()
+        live.declare(BUDGET, 'nat')
+        if not live.assume(lp.test, True):
+            # under the class invariant `budget >= 0` the guard never holds: the loop body is dead code.  The guard itself is
+            # judged by the termination rule (R5 'loop-condition' / 'loop-boundary'); there is no path to judge here.
+            continue
         n_paths = 0
         for steps, end in paths_from(cfg, head, heads, local_edges(cfg)):
             if steps[0][1] != 'T':
@@ -229,6 +236,8 @@ def asgi_loops(run, v: Verdicts, f, mode):
                 lc = Lin.atom(('len', ('sub', ev, 'body')))
                 body_read = e.ghost.get('body_read', False)
                 got0, last = _handed(e)
+                if not body_read:
+                    _bodyless_event(v, f, cfg, steps, e, wit)
                 pos_end = e.eval(_POS_E)
                 if not isinstance(pos_end, Lin):
                     raise UnknownIdiom('%s: the position is not a number at the end of a loop-body path' % f.qual)
@@ -278,6 +287,127 @@ def asgi_loops(run, v: Verdicts, f, mode):
                     _within_budget(v, f, c, ev, dpos, rem0, rem_c, pcons, wit, rw_pos)
         if n_paths == 0:
             raise UnknownIdiom('%s: no feasible path through the receive loop' % f.qual)
+
+
+def _alternatives(t, v):
+    """Alternative sets of (atomic test, truth value): `t` evaluates to `v` iff every atom of one alternative has its value."""
+    if isinstance(t, ast.UnaryOp) and isinstance(t.op, ast.Not):
+        return _alternatives(t.operand, not v)
+    if isinstance(t, ast.BoolOp):
+        parts = [_alternatives(x, v) for x in t.values]
+        if isinstance(t.op, ast.And) == v:
+            out = [[]]
+            for alts in parts:
+                out = [g + h for g in out for h in alts]
+            return out
+        return [g for alts in parts for g in alts]
+    return [[(t, v)]]
+
+
+def _mentions_budget(e) -> bool:
+    return any(isinstance(x, ast.Attribute) and dotted(x) == BUDGET for x in walk_self(e))
+
+
+def _guard_boundary(v: Verdicts, f, lp, header):
+    """The guard of a receive loop has its boundary exactly at `budget > 0`.  The budget is a non-negative integer that
+    counts the declared bytes still to be received, so (with the T side, 'runs only while the budget is positive')
+    the loop may STOP for a reason that only looks at the budget only when the budget is 0: a guard that is false for
+    some budget >= 1 (`> 1`, `< 0`, `>= 2`) leaves declared bytes unreceived while the operation reports them consumed /
+    end-of-stream.  Decided per way the guard can come out false: the budget atoms of that alternative, assumed over
+    the sign partition budget >= 0, must prove budget == 0; an alternative with another atom (enough bytes gathered, ...)
+    is a different reason to stop and is not judged here.
+    Witness: Content-Length 3, events b'ab' + b'c', exhaust(): the event carrying the last byte is never received."""
+    what = 'the receive loop stops for lack of budget only when the budget is 0 (every declared byte is waited for)'
+    rw = ('Content-Length 3 delivered as b"ab" + b"c": %s() ends with a positive budget, the last event is never received, '
+          'tell() stays short and the unread event is left on receive()' % f.name)
+    for g in _alternatives(lp.test, False):
+        bud = [(a, t) for a, t in g if _mentions_budget(a)]
+        if not bud:
+            continue
+        pure = len(bud) == len(g)
+        envs = [Env()]
+        envs[0].declare(BUDGET, 'nat')
+        for a, t in bud:
+            envs = [e2 for e1 in envs for e2 in e1.assume(a, t)]
+        for e in envs:
+            b = e.var(BUDGET)
+            if e.prove_le(b, 0):
+                v.note(f, 'loop-boundary', what, True)
+            elif pure and all(_plain_budget_atom(a) for a, _t in bud) and e.fork().add_le(1, b):
+                v.note(f, 'loop-boundary', what, False, header,
+                       'the guard `%s` is false for some budget >= 1: the loop ends although declared bytes have not been received'
+                       % unparse(lp.test), rw=rw)
+            else:
+                v.unknown('%s: cannot tell for which budgets the guard `%s` ends the loop' % (f.qual, unparse(lp.test)))
+
+
+def _plain_budget_atom(a) -> bool:
+    """The budget itself (truthiness) or one comparison of the budget with an integer constant: read exactly by the evaluator."""
+    if dotted(a) == BUDGET:
+        return True
+    if isinstance(a, ast.Compare) and len(a.ops) == 1 and isinstance(a.ops[0], (ast.Lt, ast.LtE, ast.Gt, ast.GtE, ast.Eq, ast.NotEq)):
+        x, y = a.left, a.comparators[0]
+        isint = lambda z: isinstance(z, ast.Constant) and isinstance(z.value, int) and not isinstance(z.value, bool)
+        return (dotted(x) == BUDGET and isint(y)) or (dotted(y) == BUDGET and isint(x))
+    return False
+
+
+DISCONNECT = 'http.disconnect'
+
+
+def _is_type_compare(a, ops):
+    """`<event>['type'] <op> 'http.disconnect'` (either order) with op among `ops`."""
+    if not (isinstance(a, ast.Compare) and len(a.ops) == 1 and isinstance(a.ops[0], ops)):
+        return False
+    x, y = a.left, a.comparators[0]
+    for s, c in ((x, y), (y, x)):
+        if isinstance(s, ast.Subscript) and _const_key(s.slice) == 'type' and isinstance(c, ast.Constant) and c.value == DISCONNECT:
+            return True
+    return False
+
+
+def _bodyless_event(v: Verdicts, f, cfg, steps, e, wit):
+    """A loop-body path that does not read the received event's 'body' treats the event as carrying no data.  That is
+    right for exactly two kinds of event: one without a 'body' key (the path leaves the read of event['body'] through the
+    KeyError handler, or a `'body' in event` test came out false) and a disconnect (`event['type'] == 'http.disconnect'`
+    is a fact on the path).  Any other path drops the body of an ordinary http.request event: the bytes are neither handed
+    on nor counted, and a reset of the budget on such a path ends the stream early.
+    Witness: Content-Length 6 as b'ab' + b'cd' + b'ef', exhaust(): returns after the second event, tell() == 2."""
+    what = "an event's body is left unread only when the event is a disconnect or has no 'body' key"
+    keyless = disconnect = False
+    other = None
+    for (a, l), (b, _l2) in zip(steps, steps[1:] + [(None, '')]):
+        n = cfg.node(a)
+        if l == 'exc' and b is not None and n.kind in ('stmt', 'test') and _reads_key(n, 'body'):
+            h = cfg.node(b)
+            if h.kind == 'handler' and isinstance(h.ast, ast.ExceptHandler):
+                names = [None] if h.ast.type is None else [dotted(t) for t in (h.ast.type.elts if isinstance(h.ast.type, ast.Tuple) else [h.ast.type])]
+                if any(x in _CATCHES_KEYERROR for x in names):
+                    keyless = True
+        if n.kind == 'test' and l in ('T', 'F'):
+            truth = l == 'T'
+            if implied(n.ast, truth, lambda x: _is_type_compare(x, (ast.Eq,))) is True or \
+                    implied(n.ast, truth, lambda x: _is_type_compare(x, (ast.NotEq,))) is False:
+                disconnect = True
+            elif implied(n.ast, truth, lambda x: isinstance(x, ast.Compare) and len(x.ops) == 1 and isinstance(x.ops[0], ast.In)
+                         and _const_key(x.left) == 'body') is False:
+                keyless = True
+            elif implied(n.ast, truth, lambda x: _is_type_compare(x, (ast.Eq,))) is False or \
+                    implied(n.ast, truth, lambda x: _is_type_compare(x, (ast.NotEq,))) is True:
+                other = n.ast
+        if n.kind in ('stmt', 'test') and any(isinstance(c, ast.Call) and isinstance(c.func, ast.Attribute) and c.func.attr in ('get', 'pop')
+                                               and c.args and _const_key(c.args[0]) == 'body' for c in n.walk()):
+            v.unknown("%s: the event's body is obtained through `%s`" % (f.qual, short(n.ast, 40)))
+            return
+    if keyless or disconnect:
+        v.note(f, 'event classification', what, True)
+        return
+    cons = ('if ' + unparse(other)) if other is not None else 'event = await %s()' % RECEIVE
+    v.note(f, 'event classification', what, False, cons,
+           "a path through the receive loop leaves event['body'] unread although nothing on it says that the event is a disconnect "
+           "or lacks the 'body' key%s" % (' (the path knows: not a disconnect)' if other is not None else ''), wit,
+           'Content-Length 6 delivered as b"ab" + b"cd" + b"ef": %s() treats the second http.request event as the end of the body; '
+           'its bytes are not counted and the third event stays unread' % f.name)
 
 
 _LOOKUP_ERRORS = {'KeyError', 'IndexError', 'LookupError'}
@@ -502,6 +632,147 @@ def asgi_keys(run, v: Verdicts, f):
             child = a
         v.note(f, 'optional key %s @%s' % (key, unparse(sub)), "the optional event key '%s' is read only under KeyError protection or a membership test" % key,
                ok, sub, rw="an event without '%s' (legal per the ASGI spec) raises KeyError out of the stream operation" % key)
+
+
+_GROW = {'append', 'extend', 'insert'}
+_SHRINK = {'pop', 'remove', 'clear'}
+_LIST_READERS = {'len', 'bool', 'list', 'tuple', 'sum', 'iter', 'reversed', 'sorted', 'enumerate'}
+
+
+def _len_cell(test, name, n):
+    """Three-valued value of a guard when `len(<name>) == n`: True / False / None (not decided by the length alone)."""
+    def is_len(e):
+        return isinstance(e, ast.Call) and isinstance(e.func, ast.Name) and e.func.id == 'len' and len(e.args) == 1 and not e.keywords \
+            and isinstance(e.args[0], ast.Name) and e.args[0].id == name
+
+    def num(e):
+        if is_len(e):
+            return n
+        if isinstance(e, ast.Constant) and isinstance(e.value, int) and not isinstance(e.value, bool):
+            return e.value
+        return None
+
+    if isinstance(test, ast.UnaryOp) and isinstance(test.op, ast.Not):
+        r = _len_cell(test.operand, name, n)
+        return None if r is None else not r
+    if isinstance(test, ast.BoolOp):
+        rs = [_len_cell(x, name, n) for x in test.values]
+        if isinstance(test.op, ast.And):
+            return False if any(r is False for r in rs) else (True if all(r is True for r in rs) else None)
+        return True if any(r is True for r in rs) else (False if all(r is False for r in rs) else None)
+    if isinstance(test, ast.Name) and test.id == name:
+        return n > 0
+    if is_len(test):
+        return n > 0
+    if isinstance(test, ast.Compare) and len(test.ops) == 1:
+        a, b = num(test.left), num(test.comparators[0])
+        if a is None or b is None or not (is_len(test.left) or is_len(test.comparators[0])):
+            return None
+        op = test.ops[0]
+        table = {ast.Eq: a == b, ast.NotEq: a != b, ast.Lt: a < b, ast.LtE: a <= b, ast.Gt: a > b, ast.GtE: a >= b}
+        return table.get(type(op))
+    return None
+
+
+def asgi_indexing(run, v: Verdicts, f):
+    """`chunks[k]` on a list the method builds itself is evaluated only where the guards around it prove `len(chunks) > k`.
+    The receive loops gather nothing when the client disconnects (or sends an event without 'body') before any data: the
+    list is then EMPTY, and the operation must return b'' ("a disconnect ends the stream at the bytes received so far"),
+    not raise IndexError.  Abstract evaluation of the guards (the conditional expression / if / and / or around the
+    subscript) over the length cells 0..k; a violation needs a cell the guards admit, a list display of exactly that
+    length, and a path from it to the subscript that passes no append/extend/insert.
+    Witness: empty buffer, first event b'' with more_body=True, then http.disconnect: read()/readall() raise IndexError."""
+    p = run.project
+    parent = enclosing_map(f.node)
+    displays = {}
+    for s in walk_self(f.node):
+        if isinstance(s, ast.Assign) and len(s.targets) == 1 and isinstance(s.targets[0], ast.Name):
+            val = s.value
+            if isinstance(val, ast.List) and not any(isinstance(x, ast.Starred) for x in val.elts):
+                displays.setdefault(s.targets[0].id, []).append((s, len(val.elts)))
+            elif isinstance(val, ast.Call) and isinstance(val.func, ast.Name) and val.func.id == 'list' and not val.args and not val.keywords:
+                displays.setdefault(s.targets[0].id, []).append((s, 0))
+    if not displays:
+        return
+    cfg = None
+    what = 'a constant index into a list built by the method is guarded by a proof that the list is long enough'
+    for sub in walk_self(f.node):
+        if not (isinstance(sub, ast.Subscript) and isinstance(sub.ctx, ast.Load) and isinstance(sub.value, ast.Name) and sub.value.id in displays):
+            continue
+        k = sub.slice
+        if isinstance(k, ast.UnaryOp) and isinstance(k.op, ast.USub) and isinstance(k.operand, ast.Constant) and isinstance(k.operand.value, int):
+            need = k.operand.value
+        elif isinstance(k, ast.Constant) and isinstance(k.value, int) and not isinstance(k.value, bool):
+            need = k.value + 1
+        else:
+            continue                # a slice / computed index: not this clause
+        name = sub.value.id
+        # every binding of the name is a list display (else its length is not known to the rule)
+        other = [x for x in walk_self(f.node) if isinstance(x, ast.Name) and x.id == name and isinstance(x.ctx, (ast.Store, ast.Del))
+                 and not any(parent.get(id(x)) is s for s, _m in displays[name])]
+        shrinks = [c for c in walk_self(f.node) if isinstance(c, ast.Call) and isinstance(c.func, ast.Attribute) and c.func.attr in _SHRINK
+                   and isinstance(c.func.value, ast.Name) and c.func.value.id == name]
+        escapes = [c for c in walk_self(f.node) if isinstance(c, ast.Call) and any(isinstance(a, ast.Name) and a.id == name for a in c.args)
+                   and not (isinstance(c.func, ast.Name) and c.func.id in _LIST_READERS) and not (isinstance(c.func, ast.Attribute) and c.func.attr == 'join')]
+        if other or shrinks or escapes:
+            v.unknown('%s: the length of `%s` at `%s` cannot be followed (%s)' % (f.qual, name, unparse(sub), short((other or shrinks or escapes)[0], 40)))
+            continue
+        # the guards around the subscript
+        guards, child = [], sub
+        for a in ancestors(sub, parent):
+            if isinstance(a, ast.IfExp) and child is not a.test:
+                guards.append((a.test, child is a.body))
+            elif isinstance(a, (ast.If, ast.While)) and child is not a.test:
+                guards.append((a.test, any(child is b for b in a.body)))
+            elif isinstance(a, ast.BoolOp):
+                i = next(j for j, x in enumerate(a.values) if x is child)
+                guards.extend((x, isinstance(a.op, ast.And)) for x in a.values[:i])
+            child = a
+
+        def admitted(n):
+            rs = []
+            for t, want in guards:
+                r = _len_cell(t, name, n)
+                rs.append(None if r is None else (r == want))
+            return False if any(r is False for r in rs) else (True if all(r is True for r in rs) else None)
+
+        cells = {n: admitted(n) for n in range(need)}
+        if all(r is False for r in cells.values()):
+            v.note(f, 'index %s' % unparse(sub), what, True)
+            continue
+        if cfg is None:
+            cfg = cfg_of(f, p)
+            run.use_cfg(cfg)
+        use = [n.id for n in cfg.live_nodes() if n.kind in ('stmt', 'test') and any(y is sub for y in n.walk())]
+        grows = {n.id for n in cfg.live_nodes() if n.kind in ('stmt', 'test') and any(
+            (isinstance(c, ast.Call) and isinstance(c.func, ast.Attribute) and c.func.attr in _GROW and isinstance(c.func.value, ast.Name) and c.func.value.id == name)
+            or (isinstance(c, ast.AugAssign) and isinstance(c.target, ast.Name) and c.target.id == name) for c in n.walk())}
+        defs = {i for s, _m in displays[name] for i in cfg.nodes_for(s)}
+        found = None
+        growth_free = False
+        for s, m in displays[name]:
+            if m >= need:
+                continue
+            for d in cfg.nodes_for(s):
+                starts = [y for (y, l) in cfg.succ[d] if l != 'exc']
+                path = flow.find_path(cfg, starts, use, avoid_nodes=(grows | defs) - set(use),
+                                      edge_filter=lambda a, b, l: l != 'exc' or cfg.node(b).kind == 'handler')
+                if path is None:
+                    continue
+                growth_free = True
+                if cells.get(m) is True and found is None:
+                    found = (s, m, [d] + path)
+        if found is not None:
+            s, m, path = found
+            v.note(f, 'index %s' % unparse(sub), what, False, sub,
+                   '`%s` is evaluated when len(%s) == %d (the guards around it admit that length) and `%s` reaches it without any '
+                   'append: IndexError' % (unparse(sub), name, m, short(s, 40)), flow.describe_path(cfg, path),
+                   'empty receive buffer, a first event b"" with more_body=True, then http.disconnect (or an event without "body"): '
+                   '%s() raises IndexError instead of returning b"" at the bytes received so far' % f.name)
+        elif not growth_free and need == 1:
+            v.note(f, 'index %s' % unparse(sub), what, True)       # every path from a display grows the list first
+        else:
+            v.unknown('%s: cannot tell whether `%s` has more than %d element(s) at `%s`' % (f.qual, name, need - 1, unparse(sub)))
 
 
 def asgi_constructor(run, v: Verdicts):
@@ -976,6 +1247,17 @@ def budget_source_keys(run, accessor_qual, tables, allowed, stack, witness):
         raise AnchorError('%s: no read of %s feeds the returned value' % (f.qual, ' / '.join('self.%s[%r]' % a for a in sorted(allowed))))
 
 
+def _zero_fallback(run, host, construct, value, case):
+    """The constant that stands in for a length the request does not (validly) declare is 0: "assume no content".  Any
+    other constant is an allowance of bytes nobody declared -- the wrapper asks wsgi.input for them (on a socket-backed
+    server with no body that read blocks; with pipelining it eats the next request).
+    Witness: `Content-Length: abc` (or none), req.bounded_stream.read() pulls bytes out of wsgi.input."""
+    run.check(value == 0, 'WSGI: the budget that stands in for %s is exactly 0 (no byte is read that no Content-Length declared)' % case,
+              host, construct, where=host.loc(construct),
+              runtime_witness='a request with %s: req.bounded_stream.read() asks wsgi.input for %r byte(s) beyond the declared (empty) body'
+                              % (case.replace('an ', '').replace('a ', ''), value))
+
+
 def lazy_wrapping(run):
     p = run.project
     # ---- WSGI
@@ -1076,6 +1358,7 @@ def lazy_wrapping(run):
                 if h is not None and any(h is x for x in legit_handlers):
                     mapped = True
                     run.ok(what + ' (stored in the HTTPInvalidHeader handler around the header read)', host.loc(s), s)
+                    _zero_fallback(run, host, s, s.value.value, 'an invalid Content-Length')
                     continue
                 if h is not None:
                     unknown.append('%s: `%s` in a handler that does not guard the header read' % (host.qual, short(s, 40)))
@@ -1094,10 +1377,13 @@ def lazy_wrapping(run):
                             and all(not binds(h2) and not any(isinstance(x, (ast.Return, ast.Raise)) for b in h2.body for x in ast.walk(b)) for h2 in hs):
                         mapped = True
                         run.ok(what + ' (default kept only when the guarded header read raises HTTPInvalidHeader)', host.loc(s), s)
+                        _zero_fallback(run, host, s, s.value.value, 'an invalid Content-Length')
         run.check(n_hdr > 0, 'WSGI: the header-derived length reaches the constructor', host, call,
                   runtime_witness='the wrapper is never given the declared length: bounded_stream.read() returns nothing / over-reads')
         if unknown and not other:
             raise UnknownIdiom('; '.join(unknown[:2]))
+    for e in hdr:
+        _zero_fallback(run, host, e, e.values[1].value, 'a missing Content-Length')
     run.check(mapped, 'WSGI: an invalid Content-Length (HTTPInvalidHeader) is mapped to a zero-length body stream', host,
               hdr[0] if hdr else call, runtime_witness='Content-Length: abc -> req.bounded_stream raises instead of yielding an empty body')
     # ---- the accessor behind `self.content_length`: the budget is the CGI meta-variable the server framed the body with
